@@ -1,4 +1,6 @@
 import Proofs.Lemmas.BeaconBlock
+import Proofs.Lemmas.BeaconBlockM
+import Proofs.Lemmas.BeaconBlockWF
 /-!
 # C01 — block state transition equals the consensus spec for every valid block
 
@@ -36,6 +38,8 @@ ValidateIndexedAttestationIndicesSet are driven directly with generated inputs).
 -/
 namespace Zrnt.Proofs.C01
 open Zrnt Zrnt.Beacon Zrnt.Beacon.Spec Zrnt.Beacon.BlockImpl Zrnt.Proofs.BeaconBlock
+open Zrnt.Beacon.BlockM (Ctx processHeader processRandaoReveal processEth1Vote processBLSToExecutionChange processExecutionPayload processVoluntaryExit processDeposit)
+open Zrnt.Proofs.BlockM (RegU64 ExitSmall PubkeyOK SameDuties)
 
 /-- (a) `common.ValidatorSet.ZigZagJoin`, called on two strictly increasing index lists (what
 `ValidateIndexedAttestation` has established), calls `onIn` with exactly the spec's
@@ -159,5 +163,103 @@ theorem M_block_refines_S_partial :
         expectedWithdrawals cfg s = toRes (Block.get_expected_withdrawals cfg s)) ∧
     (∀ a b : AttestationData, isSlashableAttestationData a b = Block.is_slashable_attestation_data a b) :=
   ⟨zigzag_eq_sorted_inter, initiateExit_eq, withdrawals_eq, slashable_eq⟩
+
+/-! ## Round 2: whole-operation refinements `M = S` (accept/reject AND post-state)
+
+`M` = `Zrnt/Beacon/Impl/BlockM.lean`, the code-shaped model of `PostSlotTransition` and the five `ProcessBlock`s
+with the `EpochsContext` as an abstract record `Ctx`; it is the model column of modes `c01`/`c03` (Go = M = S per
+line). `toRes` maps every rejection of `S` to `Res.err`. The hypotheses on `Ctx` are what C07/C08/C16 establish for
+a real context: the proposer is `get_beacon_proposer_index` (`Zrnt.Proofs.C07.proposers_eq_spec_partial`), the
+active count is the number of active validators (C08), the pubkey cache answers as the registry does (`PubkeyOK`,
+`Zrnt.Proofs.C16.lookup_refines_history`). -/
+
+/-- (e) `common.ProcessHeader` = `process_block_header` -/
+theorem header_eq (cfg : Config) (s : State) (block : SignedBlock) (p : Nat)
+    (hp : Block.get_beacon_proposer_index cfg s = .ok p) :
+    processHeader s block p = toRes (Block.process_block_header cfg s block) :=
+  BlockM.header_eq cfg s block p hp
+
+/-- (e) `phase0.ProcessRandaoReveal` = `process_randao` -/
+theorem randao_eq (cfg : Config) (ctx : Ctx) (s : State) (block : SignedBlock) (p : Nat)
+    (hp : Block.get_beacon_proposer_index cfg s = .ok p) (hctx : ctx.proposer = some p) (hpv : p < s.validators.length)
+    (hlen : s.randao_mixes.length = cfg.EPOCHS_PER_HISTORICAL_VECTOR) (hpos : 0 < cfg.EPOCHS_PER_HISTORICAL_VECTOR) :
+    processRandaoReveal cfg ctx s block = toRes (Block.process_randao cfg s block) :=
+  BlockM.randao_eq cfg ctx s block p hp hctx hpv hlen hpos
+
+/-- (e) `phase0.ProcessEth1Vote` (counts only when a majority is possible, wrapping products) = `process_eth1_data` -/
+theorem eth1vote_eq (cfg : Config) (s : State) (block : SignedBlock)
+    (hsmall : cfg.EPOCHS_PER_ETH1_VOTING_PERIOD * cfg.SLOTS_PER_EPOCH * 2 + 2 < 2 ^ 64) :
+    processEth1Vote cfg s block.eth1_data = toRes (Block.process_eth1_data cfg s block) :=
+  BlockM.eth1vote_eq cfg s block hsmall
+
+/-- (f) `capella.ProcessBLSToExecutionChange` = `process_bls_to_execution_change` -/
+theorem blsChange_eq (cfg : Config) (s : State) (op : SignedBLSToExecutionChange) :
+    processBLSToExecutionChange s op = toRes (Block.process_bls_to_execution_change cfg s op) :=
+  BlockM.blsChange_eq cfg s op
+
+/-- (f) `ProcessExecutionPayload` of bellatrix, capella and deneb = `process_execution_payload` of that fork
+(`TimeAtSlot` with its quotient test = `compute_timestamp_at_slot` with the `uint64` range check) -/
+theorem payload_eq (cfg : Config) (s : State) (block : SignedBlock) (payload : ExecutionPayload)
+    (hf : s.fork ≥ .bellatrix) (hx : payload.fields.extra_data.size ≤ cfg.MAX_EXTRA_DATA_BYTES)
+    (hlen : s.randao_mixes.length = cfg.EPOCHS_PER_HISTORICAL_VECTOR) (hpos : 0 < cfg.EPOCHS_PER_HISTORICAL_VECTOR)
+    (hsps : 0 < cfg.SECONDS_PER_SLOT) (hg : s.genesis_time < 2 ^ 64) :
+    processExecutionPayload cfg s block payload = toRes (Block.process_execution_payload cfg s block payload) :=
+  BlockM.payload_eq cfg s block payload hf hx hlen hpos hsps hg
+
+/-- (c) `phase0.ProcessVoluntaryExit` (validation + `InitiateValidatorExit`) = `process_voluntary_exit`, end to end -/
+theorem exit_eq (cfg : Config) (ctx : Ctx) (s : State) (exit : SignedVoluntaryExit)
+    (hact : ctx.activeCount = (s.validators.filter (is_active_validator · (s.slot / cfg.SLOTS_PER_EPOCH))).length)
+    (hq : cfg.CHURN_LIMIT_QUOTIENT ≠ 0) (hreg : RegU64 s.validators) (hsmall : ExitSmall cfg s)
+    (hshard : s.slot / cfg.SLOTS_PER_EPOCH + cfg.SHARD_COMMITTEE_PERIOD < 2 ^ 64) :
+    processVoluntaryExit cfg ctx s exit = toRes (Block.process_voluntary_exit cfg s exit) :=
+  BlockM.exit_eq cfg ctx s exit hact hq hreg hsmall hshard
+
+/-- (b) `phase0.ProcessDeposit` = `process_deposit`: Merkle branch (C19's `specRoot`), the pubkey-cache look-up guarded
+by `index < |validators|` = `pubkey ∈ validator_pubkeys`, top-up vs new validator, the altair+ extra appends -/
+theorem deposit_eq (cfg : Config) (ctx : Ctx) (s : State) (dep : Deposit)
+    (hpk : PubkeyOK s ctx) (hproof : dep.proof.length = Block.DEPOSIT_CONTRACT_TREE_DEPTH + 1)
+    (hebi : cfg.EFFECTIVE_BALANCE_INCREMENT ≠ 0) (hidx : s.eth1_deposit_index + 1 < 2 ^ 64)
+    (hbal : ∀ b ∈ s.balances, b + dep.data.amount < 2 ^ 64) :
+    (processDeposit cfg ctx s dep >>= fun r => Res.ok r.2) = toRes (Block.process_deposit cfg s dep) :=
+  BlockM.deposit_eq cfg ctx s dep hpk hproof hebi hidx hbal
+
+/-- The proposer the context caches for the slot stays the specification's `get_beacon_proposer_index` while a block
+is processed: it depends only on slot, randao history, effective balances and current-epoch activity (`SameDuties`),
+none of which an operation changes. (The frame lemma for composing the operation theorems.) -/
+theorem proposer_frame (cfg : Config) (s s' : State) (h : SameDuties cfg s s') :
+    Block.get_beacon_proposer_index cfg s' = Block.get_beacon_proposer_index cfg s :=
+  BlockM.proposer_frame cfg s s' h
+
+/-- `WF_preserved_block_partial`: the registry invariant `WF` of C02 (slashed ⇒ exit initiated; exit ≤ withdrawable;
+activation ≤ exit) is preserved by the block operations that write the registry and are proved so far: an accepted
+voluntary exit, a deposit's new validator, a BLS-to-execution change. NOT yet proved: `slash_validator` (proposer and
+attester slashings). With C02's `WF_preserved_epoch` and C13's genesis theorems this is the induction that
+establishes the reachable-state hypotheses. -/
+theorem WF_preserved_block_partial :
+    (∀ (cfg : Config) (ctx : Ctx) (s s' : State) (exit : SignedVoluntaryExit),
+        ctx.activeCount = (s.validators.filter (is_active_validator · (s.slot / cfg.SLOTS_PER_EPOCH))).length →
+        cfg.CHURN_LIMIT_QUOTIENT ≠ 0 → RegU64 s.validators → ExitSmall cfg s →
+        s.slot / cfg.SLOTS_PER_EPOCH + cfg.SHARD_COMMITTEE_PERIOD < 2 ^ 64 →
+        Lemmas.WF s.validators → Block.process_voluntary_exit cfg s exit = .ok s' → Lemmas.WF s'.validators) ∧
+    (∀ (vals : List Validator) (pk wc : Bytes) (eff : Nat), Lemmas.WF vals →
+        Lemmas.WF (vals ++ [⟨pk, wc, eff, false, FAR_FUTURE_EPOCH, FAR_FUTURE_EPOCH, FAR_FUTURE_EPOCH, FAR_FUTURE_EPOCH⟩])) ∧
+    (∀ (vals : List Validator) (i : Nat) (v : Validator) (wc : Bytes), Lemmas.WF vals → vals[i]? = some v →
+        Lemmas.WF (vals.set i { v with withdrawal_credentials := wc })) :=
+  ⟨fun cfg ctx s s' exit h1 h2 h3 h4 h5 h6 h7 => BlockM.WF_preserved_exit cfg ctx s s' exit h1 h2 h3 h4 h5 h6 h7,
+   fun vals pk wc eff h => BlockM.WF_append_deposit vals pk wc eff h,
+   fun vals i v wc h hv => BlockM.WF_set_credentials vals i v wc h hv⟩
+
+/-- non-vacuity of the round-2 hypotheses: a one-validator state and the context `ctxOf` built from it -/
+def exampleState : State :=
+  let d : State := default
+  { d with validators := [default], balances := [0], randao_mixes := [default] }
+
+example : PubkeyOK exampleState (Zrnt.Beacon.BlockM.ctxOf default exampleState) := fun _ => rfl
+example : RegU64 exampleState.validators := by
+  intro v hv
+  have : exampleState.validators = [default] := rfl
+  rw [this] at hv; simp at hv; subst hv; decide
+example : ExitSmall { (default : Config) with SLOTS_PER_EPOCH := 8 } exampleState := by
+  unfold ExitSmall; decide
 
 end Zrnt.Proofs.C01
